@@ -85,6 +85,7 @@ type jobMem struct {
 	Created         map[string]int    `json:"created"`     // job/hash -> pods ever created
 	CreatedName     map[string]bool   `json:"createdName"` // pod names ever created
 	Succeeded       map[string]bool   `json:"succeeded"`   // job/hash -> truly succeeded
+	RecordedSucc    map[string]bool   `json:"recordedSucc"` // job/hash -> the controller itself once recorded a succeeded task for this index
 	Maybe           map[string]bool   `json:"maybe"`       // job/hash -> a pod succeeded but disappeared before the success was recorded: the controller may or may not have seen it
 	LastEnd         map[string]int64  `json:"lastEnd"`     // job/hash -> sim seconds when last attempt ended (finished or removed)
 	Ended           map[string]string `json:"ended"`       // pod name -> how it ended: succeeded|failed|removed
@@ -118,6 +119,10 @@ func (m jobMem) clone() jobMem {
 	c.Maybe = map[string]bool{}
 	for k, v := range m.Maybe {
 		c.Maybe[k] = v
+	}
+	c.RecordedSucc = map[string]bool{}
+	for k, v := range m.RecordedSucc {
+		c.RecordedSucc[k] = v
 	}
 	c.LastEnd = map[string]int64{}
 	for k, v := range m.LastEnd {
@@ -223,7 +228,7 @@ func newJobWorld(scn JobScenario) *jobWorld {
 		configv1alpha1.JobExecutionConfigName: scn.jobExecutionConfig(),
 	}
 	w := &jobWorld{scn: scn}
-	w.mem = jobMem{Created: map[string]int{}, CreatedName: map[string]bool{}, Succeeded: map[string]bool{}, Maybe: map[string]bool{},
+	w.mem = jobMem{Created: map[string]int{}, CreatedName: map[string]bool{}, Succeeded: map[string]bool{}, Maybe: map[string]bool{}, RecordedSucc: map[string]bool{},
 		LastEnd: map[string]int64{}, Ended: map[string]string{}, EditedFin: map[string]bool{}, Deleted: map[string]bool{}, KillPassed: map[string]bool{}}
 	b := mc.NewBase(cfgs, true)
 	w.Base = b
@@ -870,8 +875,8 @@ func (w *jobWorld) onPodWrite(wr sim.Write) {
 		}
 		// (e) gates
 		if w.mem.Succeeded[id] {
-			// Only a violation if the controller could know: the success is in its pod cache or in the status it wrote.
-			if w.successKnown(rj, hash) {
+			// Only a violation if the controller could know: the success is in its pod cache, in the status, or was once recorded by itself.
+			if w.successKnown(rj, hash) || w.mem.RecordedSucc[id] {
 				w.Violate("C08", "create-after-success", fmt.Sprintf("pod %s created for an index that already succeeded", p.Name), w.features()...)
 			}
 		}
@@ -1164,6 +1169,17 @@ func (w *jobWorld) onJobWrite(wr sim.Write) {
 	w.Count("C11.job-version")
 	// A success the controller records after the pod disappeared was evidently observed: no longer ambiguous.
 	if wr.Actor == "ctrl" {
+		for _, t := range new.Status.Tasks {
+			if t.Status.Result == execution.TaskSucceeded {
+				idx := parallel.GetDefaultIndex()
+				if t.ParallelIndex != nil {
+					idx = *t.ParallelIndex
+				}
+				if h, err := parallel.HashIndex(idx); err == nil {
+					w.mem.RecordedSucc[string(new.UID)+"/"+h] = true
+				}
+			}
+		}
 		for _, t := range new.Status.Tasks {
 			if t.Status.Result == execution.TaskSucceeded && w.mem.Ended[t.Name] == "maybe-succeeded" {
 				idx := parallel.GetDefaultIndex()
